@@ -1592,6 +1592,12 @@ class Controller:
                 hci.HCI_ErrorCode.UNKNOWN_CONNECTION_IDENTIFIER_ERROR, command.op_code
             )
             return None
+        if connection.handle != 0:
+            # The connection is established: there is no request left to accept
+            self._send_hci_command_status(
+                hci.HCI_ErrorCode.COMMAND_DISALLOWED_ERROR, command.op_code
+            )
+            return None
         self._send_hci_command_status(hci.HCI_ErrorCode.SUCCESS, command.op_code)
 
         if command.role == hci.Role.CENTRAL:
